@@ -415,7 +415,19 @@ def c09(rep, work, tier, seed):
                 lv.append(0 if j == 0 else rnd.randint(max(0, lv[-1] - 2), lv[-1] + 1))
                 vis.append(rnd.random() < 0.85)
             yield {"id": f"deepforest-{seed}-{i}", "mode": "full", "meta": {"gen": "g3-forest"}, "prog": expand_forest({"levels": lv, "vis": vis}, min(depth, 64))}
-    write_cases(deep, deep_cases())
+    def chain_cases():
+        # nesting deeper than 255 levels (one chain, and a chain with siblings returning to shallower levels)
+        for name, lv in (("chain300", list(range(300))), ("zigzag", [min(j, 290) if j % 7 else max(0, min(j, 290) - 3) for j in range(320)])):
+            lv2 = [lv[0]]
+            for j in range(1, len(lv)):
+                lv2.append(min(lv[j], lv2[-1] + 1))
+            vis = [not (j in (0, 128, 256, 257)) for j in range(len(lv2))] if name == "chain300" else [rnd.random() < 0.97 for _ in lv2]
+            yield {"id": f"deepforest-{name}", "mode": "full", "meta": {"gen": "g3-forest"}, "prog": expand_forest({"levels": lv2, "vis": vis}, 64)}
+            yield {"id": f"deepforest-{name}-allvisible", "mode": "full", "meta": {"gen": "g3-forest"},
+                   "prog": expand_forest({"levels": lv2, "vis": [j != 0 for j in range(len(lv2))]}, 64)}
+    with open(deep, "w") as f:
+        for c in list(deep_cases()) + list(chain_cases()):
+            f.write(json.dumps(c) + "\n")
     res2 = stage_cases(rep, work, b, deep, "deep-forests")
     need_ok(rep, res, "forest", 0.99)
     rep.cov["distinct_nontrivial"] = res["outcomes"][0] + res2["outcomes"][0]
@@ -497,7 +509,7 @@ def c11(rep, work, tier, seed):
     if res["outcomes"][1] == 0:
         rep.error("no palette program was classified must-fail: the missing-index rule was not exercised")
     rep.cov["distinct_nontrivial"] = res["outcomes"][0] + res["outcomes"][1]
-    rep.final = dict(rule=f"all sequences of <= {k} palette chunks from a 9-entry menu (new ranges, legacy packets, cumulative skip, count byte 0) x all "
+    rep.final = dict(rule=f"all sequences of <= {k} palette chunks from a 10-entry menu (new ranges, legacy packets, cumulative skip, count byte 0) x all "
                           "indexed pixel vectors of <= 2 pixels over {0,1,2,3,4,5,7,255} (TLC BFS); enforced for <= 1 chunk per format; plus random indexed sprites",
                      trusted=TRUSTED, exhaustive=True)
 
@@ -606,6 +618,11 @@ def predicted_faults_stage(rep, work, b, tier, seed, nseeds=None):
     ff = work.path("pfields.ndjson")
     faults(b, seeds, ff, "fields", seed, mode="bytes")
     res = batched_stage(rep, work, b, ff, "fields-predicted", batch=40000, env={"ASEVER_ALLOC_CAP": ALLOC_CAP})
+    # arbitrary byte-level mutants of the same seeds: TLC's decoder must classify every one of them (it is total on byte strings)
+    hv = work.path("phavoc.ndjson")
+    faults(b, seeds, hv, "havoc", seed, n=2500 if tier == "quick" else 60000, mode="bytes")
+    resh = batched_stage(rep, work, b, hv, "havoc-predicted", batch=40000, env={"ASEVER_ALLOC_CAP": ALLOC_CAP})
+    rep.cov["predicted_havoc_mutants"] = dict(zip(["must_load_exact_observation", "must_fail", "either", "unknown_or_unstructured"], resh["outcomes"]))
     rep.cov["predicted_field_faults"] = dict(zip(["must_load_exact_observation", "must_fail", "either", "unknown_or_unstructured"], res["outcomes"]))
     if res["outcomes"][0] == 0 or res["outcomes"][1] == 0:
         rep.error(f"predicted field faults: outcome classes not exercised {res['outcomes']}")
@@ -863,6 +880,54 @@ def apalache_reader_stage(rep, work):
     log(f"[{rep.pid}] apalache AseReadInt: {done}/{len(obligations)} obligations discharged, {time.time()-t0:.1f}s")
 
 
+def last_chunk_variants(prog):
+    """Well-formed sprites whose LAST frame ends in each chunk kind (and shapes with an empty last frame / no frames at all):
+    a truncation inside the trailing bytes of any chunk kind, or inside a bare frame header, must be refused (C13)."""
+    import copy
+    tails = {
+        "image_layer": [{"k": "layer", "flags": 1, "name": [90]}],
+        "group_layer": [{"k": "layer", "flags": 1, "ltype": 1, "name": []}],
+        "tilemap_layer": [{"k": "tileset", "id": "9", "flags": 6, "count": 1, "tw": 1, "th": 1, "name": [], "px": [[0, 0, 0, 0]] if prog["hdr"].get("depth", 32) == 32 else ([[0, 0]] if prog["hdr"].get("depth") == 16 else [[prog["hdr"].get("tidx", 0)]])},
+                          {"k": "layer", "flags": 1, "ltype": 2, "tileset": ["9"], "name": [84]}],
+        "profile": [{"k": "profile", "ptype": 1, "flags": 0}],
+        "extfiles": [{"k": "extfiles", "entries": [{"id": "3", "etype": 1, "name": [101, 102]}]}],
+        "extfiles_empty_name": [{"k": "extfiles", "entries": [{"id": "4", "etype": 0, "name": []}]}],
+        "slice_no_keys": [{"k": "slice", "name": [115], "flags": 0, "keys": []}],
+        "slice_with_pivot": [{"k": "slice", "name": [], "flags": 3, "keys": [{"frame": "0", "x": "1", "y": "2", "w": "3", "h": "4", "s9": {"cx": "1", "cy": "1", "cw": "1", "ch": "1"}, "pivot": {"x": "-1", "y": "5"}}]}],
+        "user_data_text": [{"k": "layer", "flags": 1, "name": [1]}, {"k": "ud", "text": [[104, 105]], "color": []}],
+        "user_data_color": [{"k": "layer", "flags": 1, "name": [2]}, {"k": "ud", "text": [], "color": [[1, 2, 3, 4]]}],
+        "user_data_empty": [{"k": "layer", "flags": 1, "name": [3]}, {"k": "ud", "text": [], "color": []}],
+        "celextra": [{"k": "celextra", "body": [0] * 20}],
+        "mask": [{"k": "mask", "body": [7, 7, 7]}],
+        "path_empty": [{"k": "path", "body": []}],
+        "legacy_palette": [{"k": "oldpal04", "packets": [{"skip": 0, "count": 1, "rgb": [[1, 2, 3]]}]}],
+    }
+    out = []
+    base_ok = prog["hdr"].get("depth", 32) != 8          # keep indexed hosts' palettes untouched
+    for name, tail in tails.items():
+        if name == "legacy_palette" and not base_ok:
+            continue
+        q = copy.deepcopy(prog)
+        for fr in q["frames"]:
+            fr.pop("pads", None)
+        q["frames"][-1]["chunks"] = q["frames"][-1]["chunks"] + copy.deepcopy(tail)
+        out.append((name, q))
+    if len(prog["frames"]) >= 1:
+        q = copy.deepcopy(prog)
+        for fr in q["frames"]:
+            fr.pop("pads", None)
+        q["frames"].append({"dur": 5, "chunks": []})            # an empty last frame: a bare 16-byte frame header
+        q["hdr"]["nframes"] = len(q["frames"])
+        out.append(("empty_last_frame", q))
+    out.append(("no_frames", {"hdr": dict(prog["hdr"], nframes=0), "frames": []}))
+    if base_ok:
+        q = {"hdr": dict(prog["hdr"], nframes=1), "frames": [{"dur": 1, "chunks": [{"k": "tags", "tags": [{"from": 0, "to": 0, "dir": 0, "repeat": 0, "name": [116, 97, 103]}]}]}]}
+        out.append(("tags_last", q))
+        q = {"hdr": dict(prog["hdr"], nframes=1), "frames": [{"dur": 1, "chunks": [{"k": "pal", "first": 0, "last": 1, "entries": [{"flags": 0, "rgba": [1, 2, 3, 255]}, {"flags": 1, "rgba": [4, 5, 6, 255], "name": [110, 97, 109, 101]}]}]}]}
+        out.append(("named_palette_last", q))
+    return out
+
+
 def c13(rep, work, tier, seed):
     b = build("dev")
     apalache_reader_stage(rep, work)
@@ -876,6 +941,16 @@ def c13(rep, work, tier, seed):
             c = json.loads(line)
             c.pop("group", None)
             f.write(json.dumps(c) + "\n")
+    # every chunk kind as the last chunk of the last frame; an empty last frame; a sprite without frames
+    hosts = work.path("lasthosts.ndjson")
+    gen(b, hosts, "rgba", seed + 4, 3 if tier == "quick" else 30)
+    gen(b, work.path("lasthosts2.ndjson"), "default", seed + 5, 3 if tier == "quick" else 30)
+    with open(cases, "a") as f:
+        for hp in (hosts, work.path("lasthosts2.ndjson")):
+            for line in open(hp):
+                c = json.loads(line)
+                for name, q in last_chunk_variants(c["prog"]):
+                    f.write(json.dumps({"id": f"{c['id']}|last={name}", "prog": q, "mode": "light", "meta": {"gen": "g3-last-chunk", "last": name}}) + "\n")
     res, n = driver_stage(rep, work, b, "cuts", cases, "cuts", [], kinds={"cut_full_file_fails", "cut_prefix_loaded"})
     rep.cov["traces_validated_against_impl"] += res["outcomes"][0]
     rep.cov["evaluations"] += res["outcomes"][1]
@@ -895,6 +970,15 @@ def c14(rep, work, tier, seed):
     cases = files_for_readers(work, b, seed + 3, 10 if tier == "quick" else 120, 700 if tier == "quick" else 3000, profile="rgba")
     scripts = "F,1,H,IF,I1,1H,FI1H,HHI,II1,1F1" if tier == "quick" else "F,1,H,IF,I1,1H,FI1H,HHI,II1,1F1,HF,IHF,11H,1IIF,H1"
     kinds = "-2,-3" if tier == "quick" else "-2,-3,-4,-5,-6,-7"
+    # a chunk body larger than 64 KiB (bodies are read in bounded steps): few scripts, strided error offsets
+    bigf = work.path("bigbody.ndjson")
+    write_cases(bigf, [{"id": "bigbody-raw-200x100", "mode": "light", "prog": {"hdr": {"w": 4, "h": 4, "depth": 32}, "frames": [{"dur": 1, "chunks": [
+        {"k": "layer", "flags": 1, "name": [76]},
+        {"k": "cel", "layer": 0, "ctype": 0, "w": 200, "h": 100, "px": [[(i * 7) % 256, (i // 200) % 256, 3, 255] for i in range(20000)]},
+        {"k": "cel", "layer": 0, "ctype": 1, "link": 0} if False else {"k": "path", "body": []}]}]}}])
+    resb, nb = driver_stage(rep, work, b, "readers", bigf, "readers-bigbody", ["--scripts", "F,IF,HFI,FHI,IHF,FFI", "--kinds", "-2,-5", "--every", "0", "--maxoff", "150"],
+                            kinds={"reader_baseline", "reader_call_sequence", "reader_stopped_early", "reader_result_differs", "reader_eof_not_error",
+                                   "reader_error_not_returned", "reader_variant_differs"})
     res, n = driver_stage(rep, work, b, "readers", cases, "readers", ["--scripts", scripts, "--kinds", kinds, "--every", "1" if tier == "quick" else "0", "--maxoff", "400"] + (["--rotate"] if tier == "quick" else []),
                           kinds={"reader_baseline", "reader_call_sequence", "reader_stopped_early", "reader_result_differs", "reader_eof_not_error",
                                  "reader_error_not_returned", "reader_variant_differs"})
@@ -952,6 +1036,10 @@ def feature_switches(prog):
                 sw("fixed_gamma", lambda q, at=at: at(q).update(flags=1))
             elif k == "tileset":
                 sw("tileset_not_embedded", lambda q, at=at: at(q).update(flags=at(q)["flags"] & ~2 | 1))
+    # a tags chunk in a later frame is ignored for its content, but an unknown direction in it is still an unknown direction
+    if len(prog["frames"]) >= 2:
+        for v in [3, 255]:
+            sw("anim_direction", lambda q, v=v: q["frames"][-1]["chunks"].append({"k": "tags", "tags": [{"from": 0, "to": 0, "dir": v, "repeat": 0, "name": [120]}]}))
     # a profile chunk can be added anywhere: add one at the front of frame 0
     if prog["frames"]:
         sw("icc_profile", lambda q: q["frames"][0]["chunks"].insert(0, {"k": "profile", "ptype": 2, "flags": 0, "icc": [9, 9]}))
@@ -1116,6 +1204,21 @@ def stress_cases(tier):
                                                                  ([{"k": "cel", "layer": 0, "ctype": 0, "w": 1, "h": 1, "px": [[i % 256, 2, 3, 255]]}] if i % 1000 == 0 else [])} for i in range(n)]}
     def many_flat_layers(n):
         return {"hdr": {"w": 1, "h": 1, "depth": 32}, "frames": [{"dur": 1, "chunks": [{"k": "layer", "flags": 1, "name": [65]} for _ in range(n)]}]}
+    def link_chain(n, forward_first):
+        # one layer; frame 1 holds the only image cel; every later frame links to its predecessor; frame 0 links forward to the last
+        frames = []
+        for i in range(n):
+            if i == 0:
+                ch = [{"k": "layer", "flags": 1, "name": [76]}, {"k": "cel", "layer": 0, "ctype": 1, "link": (n - 1) if forward_first else 1}]
+            elif i == 1:
+                ch = [{"k": "cel", "layer": 0, "ctype": 0, "w": 1, "h": 1, "px": [[1, 2, 3, 255]]}]
+            else:
+                ch = [{"k": "cel", "layer": 0, "ctype": 1, "link": i - 1}]
+            frames.append({"dur": 1, "chunks": ch})
+        return {"hdr": {"w": 1, "h": 1, "depth": 32}, "frames": frames}
+    for n in ([65535] if tier == "quick" else [3000, 65535]):
+        yield {"id": f"stress-linkchain-fwd-{n}", "mode": "light", "meta": {"gen": "g5c", "shape": "chain of linked cels, first link forward", "n": n}, "prog": link_chain(n, True)}
+        yield {"id": f"stress-linkchain-{n}", "mode": "light", "meta": {"gen": "g5c", "shape": "chain of linked cels", "n": n}, "prog": link_chain(n, False)}
     sizes = [2000, 60000] if tier == "quick" else [2000, 20000, 60000, 65535]
     for n in sizes:
         yield {"id": f"stress-nested-{n}", "mode": "light", "meta": {"gen": "g5c", "shape": "nested layers", "n": n}, "prog": nested(min(n, 65535))}
@@ -1230,6 +1333,18 @@ def c12(rep, work, tier, seed):
     env = {"ASEVER_ALLOC_CAP": ALLOC_CAP}
     seeds, ff, hv = fault_inputs(rep, work, b, tier, seed, "load", 10 if tier == "quick" else 80, 20000 if tier == "quick" else 400000,
                                  classes="size,count,len,dim,index")
+    # declared counts that only matter in combination with the file's shape: header fields of sprites with many layers / frames
+    shaped = work.path("shaped.ndjson")
+    gen(b, shaped, "wide", seed + 61, 2)
+    gen(b, work.path("shaped2.ndjson"), "long", seed + 62, 1)
+    with open(shaped, "a") as f:
+        f.write(open(work.path("shaped2.ndjson")).read())
+    hf = work.path("hdrfields.ndjson")
+    r = subprocess.run([b, "faults", "--in", shaped, "--kind", "fields", "--seed", str(seed), "--mode", "load", "--only", "hdr.", "--out", hf], capture_output=True, text=True)
+    if r.returncode != 0:
+        raise ToolError("faults --only failed: " + r.stderr[-300:])
+    with open(ff, "a") as f:
+        f.write(open(hf).read())
     r1 = batched_stage(rep, work, b, ff, "inflated-fields", batch=60000, env=env)
     r2 = batched_stage(rep, work, b, hv, "havoc", batch=100000, env=env)
     if tier != "quick":
@@ -1268,7 +1383,8 @@ def c18(rep, work, tier, seed):
     dims = 2 if tier == "quick" else 3
     out, states = mc_run(rep, work, "MC_Util", {"MaxDim": dims, "MaxStrip": 5, "MaxPal": 3 if tier == "quick" else 4}, ["ExtrudeInv", "Export"], workers=4)
     # the palette alphabet, its channel permutations, colours with equal channel sums, and an unrelated colour
-    rgb = [[10, 5, 20], [20, 5, 10], [5, 10, 20], [9, 9, 9], [5, 20, 10], [20, 10, 5], [10, 20, 5], [0, 5, 30], [30, 5, 0], [15, 5, 15]]
+    rgb = [[10, 5, 20], [20, 5, 10], [255, 0, 0], [9, 9, 9], [5, 20, 10], [20, 10, 5], [10, 20, 5], [0, 5, 30], [30, 5, 0], [15, 5, 15],
+           [0, 1, 0], [0, 0, 1], [255, 255, 255], [0, 255, 254], [1, 0, 0], [128, 128, 128], [5, 10, 20]]
     queries = [c + [a] for c in rgb[:4] for a in (255, 128, 0)] + [c + [255] for c in rgb[4:]] + [[10, 5, 20, 254], [20, 5, 10, 1]]
     cases = work.path("util.ndjson")
     def it():
